@@ -371,9 +371,9 @@ def needPatText (args : List (String × RVal)) (n : String) : NM (List Char) := 
   | .ref _ | .closure _ | .native _ _ | .node _ | .brk _ | .cont _ | .ret _ _ => raise "Cannot convert to pattern"
 
 /-- is `asDecimal()` of this value the runtime error for sure -/
-def neverDecimal (s : State) : RVal → Bool
+def neverDecimal (len : Nat → Option Nat) : RVal → Bool
   | .null | .pat _ | .closure _ | .native _ _ | .node _ | .brk _ | .cont _ | .ret _ _ => true
-  | .ref a => (contLen s a).isSome
+  | .ref a => (len a).isSome
   | _ => false
 
 /-- `args.getNumerical(name)` as far as the test goes: the numerical value, or the error -/
@@ -408,8 +408,8 @@ def litEval (var : List Char) : Str.Res (List Char) :=
       if inner.all (fun c => c ≠ '\\' ∧ c ≠ '\'' ∧ c ≠ '"' ∧ c.toNat ≥ 32) then .ok inner else .unsup
     else .unsup
 
-/-- the interpreted built-ins -/
-def nativeRes (name : String) (args : List (String × RVal)) (s : State) : NRes := run do
+/-- the interpreted built-ins (the state is looked at through `len`, the lengths of the containers on the heap, only) -/
+def nativeResL (name : String) (args : List (String × RVal)) (len : Nat → Option Nat) : NRes := run do
   match name with
   -- bit functions (functions.py FuncBit*)
   | "bit_and" => do let a ← needInt args "a"; let b ← needInt args "b"; pure (.val (.int (Lib.bitAnd a b)))
@@ -451,7 +451,7 @@ def nativeRes (name : String) (args : List (String × RVal)) (s : State) : NRes 
           else pure (.val (.int 0))
       | _, _ =>
         -- `asDecimal()` of x, then of y, then `math.pow`: every failure is the runtime error
-        if neverDecimal s x || neverDecimal s y then raise "Cannot convert to decimal" else abstain
+        if neverDecimal len x || neverDecimal len y then raise "Cannot convert to decimal" else abstain
   -- conversions: FuncInt / FuncDecimal / FuncBoolean (`Value.asInt`, `asDecimal`, `asBoolean`)
   | "int" => do
       match ← need args "obj" with
@@ -464,7 +464,7 @@ def nativeRes (name : String) (args : List (String × RVal)) (s : State) : NRes 
         | .ok n neg => pure (.val (.int (if neg then -(n : Int) else n)))
         | .bad => raise "Cannot convert to int"
         | .unk => abstain
-      | .ref a => match contLen s a with
+      | .ref a => match len a with
         | some n => pure (.val (.int n))
         | none => abstain
       | .date _ => abstain
@@ -494,7 +494,7 @@ def nativeRes (name : String) (args : List (String × RVal)) (s : State) : NRes 
               pure (.val (if e ≥ 0 then .dec (m * 2 ^ e.toNat) 0 else mkDec m (-e).toNat))
           | none => abstain
       | .date _ => abstain
-      | v => if neverDecimal s v then raise "Cannot convert to decimal" else abstain
+      | v => if neverDecimal len v then raise "Cannot convert to decimal" else abstain
   | "boolean" => do
       match ← need args "obj" with
       | .bool b => pure (.val (.bool b))
@@ -504,7 +504,7 @@ def nativeRes (name : String) (args : List (String × RVal)) (s : State) : NRes 
         else if t = ['0'] then pure (.val (.bool false))
         else if Str.isAscii t then pure (.val (.bool (Str.upperM t == ['T', 'R', 'U', 'E'])))
         else abstain
-      | .ref a => match contLen s a with
+      | .ref a => match len a with
         | some n => pure (.val (.bool (decide (n > 0))))
         | none => abstain
       | .null | .dec _ _ | .pat _ | .date _ | .closure _ | .native _ _ | .node _ | .brk _ | .cont _ | .ret _ _ =>
@@ -514,7 +514,7 @@ def nativeRes (name : String) (args : List (String × RVal)) (s : State) : NRes 
       match ← need args "obj" with
       | .null => pure (.val (.bool false))
       | .str t => pure (.val (.bool (!t.isEmpty)))
-      | .ref a => match contLen s a with
+      | .ref a => match len a with
         | some n => pure (.val (.bool (decide (n > 0))))
         | none => abstain
       | _ => pure (.val (.bool true))
@@ -615,6 +615,22 @@ def nativeRes (name : String) (args : List (String × RVal)) (s : State) : NRes 
       let _ ← needNumerical args "x"
       abstain
   | _ => abstain
+
+/-- the position-free view of an argument: a control value or a node is reduced to its kind.  No built-in
+    interpreted here looks inside one (they are ill-typed arguments everywhere), and `finish` never hands one back. -/
+def flat : RVal → RVal
+  | .brk _ => .brk {}
+  | .cont _ => .cont {}
+  | .ret _ _ => .ret .null {}
+  | .node _ => .node .absent
+  | v => v
+
+def flatArgs (args : List (String × RVal)) : List (String × RVal) := args.map (fun kv => (kv.1, flat kv.2))
+
+/-- the result of a built-in: computed from the position-free view of the arguments and from the lengths of the
+    containers on the heap -/
+def nativeRes (name : String) (args : List (String × RVal)) (s : State) : NRes :=
+  nativeResL name (flatArgs args) (contLen s)
 
 /-- values an interpreted built-in may hand back: scalars and container references -/
 def plainB : RVal → Bool
